@@ -52,6 +52,8 @@ KEYS = {
     "newline-changes-text": "outputs under different newline_style differ in more than line endings",
     "expand-inside-differs": "expand_inside_operation output is not the modelled expansion of the unexpanded output",
     "option-panic": "the emitter panics under one option set and not under the default one",
+    "strip-comments-no-align-unwrap-panic": "strip_comments = true with vertical_align = false panics (last_token is never updated)",
+    "strip-comments-keeps-comment-after-import": "strip_comments = true keeps the comment that follows an import declaration",
 }
 
 
@@ -61,10 +63,40 @@ def hexs(s):
     return s.encode("utf-8").hex()
 
 
+def run_lines(binary, lines, shard=40):
+    """Own runner (C.run_lines reruns a slow shard line by line with a 60 s limit, which turns a slow
+    machine into false CRASH results): small shards, generous limits; a case that exceeds its limit
+    is reported as TIMEOUT (inconclusive, never judged), a harness process that dies as CRASH."""
+    from concurrent.futures import ThreadPoolExecutor
+    shards = [lines[i:i + shard] for i in range(0, len(lines), shard)]
+
+    def work(sh_lines):
+        rc, o, e = C.sh([binary], inp="\n".join(sh_lines) + "\n", timeout=3600)
+        outl = o.splitlines()
+        if len(outl) == len(sh_lines):
+            return outl
+        res = outl[:len(sh_lines)]            # one flushed line per finished case, in order
+        for ln in sh_lines[len(res):]:
+            rc1, o1, e1 = C.sh([binary], inp=ln + "\n", timeout=1200)
+            ol = o1.splitlines()
+            if ol:
+                res.append(ol[0])
+            elif rc1 == 124:
+                res.append("TIMEOUT")
+            else:
+                res.append("CRASH rc=%d %s" % (rc1, (e1.strip().splitlines() or [""])[-1][:200]))
+        return res
+    out = []
+    with ThreadPoolExecutor(max_workers=C.NCPU) as ex:
+        for r in ex.map(work, shards):
+            out.extend(r)
+    return out
+
+
 def run_cases(binary, cases):
-    """cases: [(files, opts)] -> [("OK", nerr, [texts]) | ("PARSE", idx) | ("PANIC", msg)]"""
+    """cases: [(files, opts)] -> [("OK", nerr, [texts]) | ("PARSE", idx) | ("PANIC", msg) | ("TIMEOUT", "")]"""
     lines = ["E %s %s" % (G.opts_wire(o), " ".join(hexs(f) if f else "-" for f in files)) for files, o in cases]
-    outs = C.run_lines(binary, lines, timeout=1800, nshards=min(C.NCPU, max(1, len(lines) // 8)))
+    outs = run_lines(binary, lines) if lines else []
     res = []
     for ln in outs:
         t = ln.split()
@@ -75,6 +107,8 @@ def run_cases(binary, cases):
                 res.append(("PANIC", "unreadable harness line"))
         elif t and t[0] == "PARSE-ERROR":
             res.append(("PARSE", t[1] if len(t) > 1 else "?"))
+        elif t and t[0] == "TIMEOUT":
+            res.append(("TIMEOUT", ""))
         else:
             res.append(("PANIC", ln[:300]))
     return res
@@ -106,7 +140,11 @@ def relate(src, base_o, base_txt, o, txt, stats=None):
     tgt = G.sig(ot)
     left = [t for t in ot if G.is_comment(t) and t.t.replace("\r", "") not in emb.replace("\r", "")]
     if o["sc"] and left:
-        bad.append(("strip-comments-leaves-comment", "comment %r in the output with strip_comments = true" % left[0].t[:60]))
+        import re as _re
+        k = "strip-comments-leaves-comment"
+        if _re.search(r"\bimport\b[^;]*;\s*(//|/\*)", src):
+            k = "strip-comments-keeps-comment-after-import"     # import_declaration calls process_comment directly
+        bad.append((k, "comment %r in the output with strip_comments = true" % left[0].t[:60]))
     if o["ei"]:
         s = drop_comments(s)
         tgt = drop_comments(tgt)
@@ -166,8 +204,15 @@ def judge_design(files, plan, results, stats=None):
         return None          # not this property (C10 / C11): the default option set itself fails
     by_key = {G.opts_key(o): r for o, r in zip(plan, results)}
     for o, r in zip(plan[1:], results[1:]):
+        if r[0] == "TIMEOUT":
+            if stats is not None:
+                stats["rows_timed_out"] = stats.get("rows_timed_out", 0) + 1
+            continue
         if r[0] != "OK":
-            bad.append(("option-panic", "default options emit, %s gives %s" % (G.opts_wire(o), r[1][:200]), o, 0))
+            k = "option-panic"
+            if o["sc"] and not o["va"] and "Option::unwrap()" in r[1]:
+                k = "strip-comments-no-align-unwrap-panic"      # last_token frozen by strip_comments (emitter.rs process_token)
+            bad.append((k, "default options emit, %s gives %s" % (G.opts_wire(o), r[1][:200]), o, 0))
             continue
         for fi, (src, bt, ot) in enumerate(zip(files, base[2], r[2])):
             for k, d in relate(src, base_o, bt, o, ot, stats):
